@@ -28,14 +28,16 @@ RULE = ('all undirected graphs with at least one edge on n <= 4 nodes (quick; th
         'nodes, self-loops, directed kinds), 200 (1 500) structured graphs with weights from {0.1, 1/3, 1e-3, 7, 2^24+1, 1e20, 1, 2, 2.5}, '
         '120 (2 500) paths / stars / cycles / random graphs with one or two weights multiplied by 10^(+-20..45) (Paris), 60 (800) graphs '
         'handed over as bool / int64 / float32 / dense / unsorted CSR / CSR with duplicate entries, refits of an already fitted estimator, '
-        'stored zero entries, all biadjacency matrices up to 2x3 and random ones x {Paris(weights, reorder), '
+        'stored zero entries (explicit zeros on both sides of a non-adjacent pair, on ONE side only - the matrix stays symmetric '
+        'in value -, on the diagonal: all graphs of 3 nodes x every such position, 25 (400) sampled graphs of 4-7 nodes with 1-3 '
+        'of them), all biadjacency matrices up to 2x3 and random ones x {Paris(weights, reorder), '
         'LouvainHierarchy(resolution, shuffle), LouvainIteration(depth, resolution, shuffle)}; random nested trees for '
         'get_dendrogram; random valid dendrograms for reorder_dendrogram / split_dendrogram. A case is non-trivial when the '
         'graph has at least 3 nodes and 2 edges (algorithms) or the tree / dendrogram has at least 3 leaves; distinct = '
         'distinct (function, input, options)')
 ASSUMPTIONS = ['Louvain.fit_predict is a parameter of the Louvain tree builders (its recorded labels are replayed by the model)',
                'np.lexsort sorts stably by (height, larger child); np.unique returns the sorted distinct labels',
-               'format checks, get_probs, symmetrisation and the unit diagonal of Paris.fit are executed by the harness with '
+               'format checks, get_probs, symmetrisation, removal of explicit zeros and the unit diagonal of Paris.fit are executed by the harness with '
                "the library's own helpers; the model starts at the AggregateGraph",
                'edge weights are non-negative, at least one is positive',
                'on this platform (x86-64, SSE2 doubles, no FMA contraction in the compiled kernel) the chain of Paris is compared bit for bit; '
@@ -267,6 +269,10 @@ def paris_model_line(a, weights, reorder, force_bipartite):
     in_w = get_probs(weights, adjacency.T)
     if not is_symmetric(adjacency):
         adjacency = directed2undirected(adjacency)
+    elif adjacency.nnz != adjacency.count_nonzero():
+        # explicit zeros are dropped (F27): the stored entries are then the non-zero values, symmetric like them
+        adjacency = adjacency.copy()
+        adjacency.eliminate_zeros()
     null = (out_w + in_w) == 0
     if any(null):
         adjacency += sparse.diags(null.astype(int))
@@ -427,8 +433,8 @@ def cases_louvain(kind, a, opts, force_bipartite=False, container=None, refit=No
     # the tree builder against the model, Louvain's answers replayed
     if kind == 'LouvainIteration':
         pat = sparse.csr_matrix(adjacency, copy=True)
-        pat.data = np.ones(len(pat.data))
-        mat = pat.toarray().astype(int)          # stored entries: the code tests `adjacency.nnz`
+        pat.data = (pat.data != 0).astype(float)
+        mat = pat.toarray().astype(int)          # entries different from zero: the code tests `adjacency.count_nonzero()` (F28)
         orc = '|'.join('%s>%s' % (enc_list(nd), enc_list(lb)) for nd, lb in rec['calls'] if nd is not None) or '-'
         line = 'c07.louvain_iteration %d %s %d %s' % (n, ';'.join(','.join(str(int(x)) for x in r) for r in mat),
                                                      opts.get('depth', 3), orc)
@@ -614,6 +620,59 @@ def container_cases(ctx, rng, count):
     return out
 
 
+def _with_zeros(a, zs):
+    """the matrix `a` with explicit zeros stored at the positions `zs` (which must not be stored already)"""
+    cz = sparse.csr_matrix(a).tocoo()
+    z = sparse.csr_matrix((np.concatenate([cz.data, [0.0] * len(zs)]),
+                           (np.concatenate([cz.row, [i for i, _ in zs]]).astype(int),
+                            np.concatenate([cz.col, [j for _, j in zs]]).astype(int))), shape=a.shape)
+    z.sort_indices()
+    return z
+
+
+def stored_zero_cases(ctx, rng, count):
+    """matrices that are symmetric in value and store explicit zeros: on one side of a pair of non-adjacent nodes only
+    (is_symmetric compares values, so the stored pattern is not symmetric), on both sides, on the diagonal. All graphs of
+    3 nodes x every ordered free pair, then sampled larger graphs with several such zeros."""
+    out = []
+
+    def emit(z, kind, opts):
+        ctx.count('stored-zero:' + kind)
+        for wz, rz in opts:
+            out.extend(cases_paris(z, wz, rz, ctx=ctx))
+        out.extend(cases_louvain('LouvainIteration', z, {}, False))
+        out.extend(cases_louvain('LouvainHierarchy', z, {}, False))
+
+    for es in graphs.all_undirected(3, loops=False):
+        if not es:
+            continue
+        a = graphs.csr_from_edges(3, es, [1.0] * len(es))
+        for i in range(3):
+            for j in range(3):
+                if a[i, j] == 0 and a[j, i] == 0:
+                    emit(_with_zeros(a, [(i, j)]), 'diagonal' if i == j else 'one-sided', PARIS_OPTS)
+    for _ in range(count):
+        n = rng.randint(4, 7)
+        es = graphs.random_edges(rng, n, rng.choice([0.3, 0.5]))
+        if not es:
+            continue
+        a = graphs.csr_from_edges(n, es, graphs.sym_weights(rng, es, rng.choice([[1.0], [1.0, 2.0, 3.0, 0.5]])))
+        free = [(i, j) for i in range(n) for j in range(i, n) if a[i, j] == 0 and a[j, i] == 0]
+        if not free or a.nnz == 0:
+            continue
+        zs, kinds = [], set()
+        for (i, j) in rng.sample(free, min(len(free), rng.randint(1, 3))):
+            if i == j:
+                zs.append((i, i))
+                kinds.add('diagonal')
+            else:
+                side = rng.choice(['upper', 'lower', 'both'])
+                zs += {'upper': [(i, j)], 'lower': [(j, i)], 'both': [(i, j), (j, i)]}[side]
+                kinds.add('two-sided' if side == 'both' else 'one-sided')
+        emit(_with_zeros(a, zs), '+'.join(sorted(kinds)), rng.sample(PARIS_OPTS, 2))
+    return out
+
+
 class Sub0:
     def count(self, *a, **k):
         pass
@@ -747,6 +806,7 @@ def build_cases(ctx):
             cases += cases_louvain('LouvainIteration', a, {}, False)
         ctx.count('graph:palette ' + name.rstrip('0123456789'))
     cases += container_cases(ctx, rng, 60 if quick else 800)
+    cases += stored_zero_cases(ctx, rng, 25 if quick else 400)
     cases += wide_cases(ctx)
     # near-ties: unweighted graphs on 7-9 nodes make many merges of equal height; the float32 similarities of
     # Paris then order a parent and its child by rounding noise (spec lines only: validity of dendrogram_)
